@@ -7,9 +7,9 @@ ADD = {
  'C01': ("cycle analysis of operator applications against counter updates; last-writer dataflow of the vectors added to x",
          "Also decided: every CFG cycle through an application of A modifies the returned counter (the count bounds the work), x is only incremented inside a solve, and under right / left preconditioning x is incremented only by vectors of the solution space (last-writer dataflow)."),
  'C02': ("fact-level inlining of helpers; shared zero-overwrite and Chebyshev-bound rules",
-         "Also decided: the Chebyshev smoother estimates its spectral bound for the operator it iterates on (scaled / unscaled), zero-coefficient primitives really overwrite the scratch they are used to reset."),
+         "Also decided: the Chebyshev smoother estimates its spectral bound for the operator it iterates on (scaled / unscaled), zero-coefficient primitives really overwrite the scratch they are used to reset, smoothed aggregation damps with the radius of the diagonally scaled operator."),
  'C03': ("argument-flow rules on policy construction; contradiction rule on the coarse_enough tests; sorted-operand rule for the 16-thread SpGEMM switch",
-         "Also decided: every coarsening / relaxation policy object of setup and rebuild is constructed from the configured parameters, every test against coarse_enough is the strict `rows > coarse_enough`, the operators handed to the SpGEMM (P, R, coarse A) are sorted, product dispatch and factor order of the marker-based SpGEMM."),
+         "Also decided: every coarsening / relaxation policy object of setup and rebuild is constructed from the configured parameters, every test against coarse_enough is the strict `rows > coarse_enough`, the operators handed to the SpGEMM (P, R, coarse A) are sorted, product dispatch and factor order of the marker-based SpGEMM, amg::rebuild runs the level loop on every normally returning path."),
  'C05': ("inner-product argument-role analysis (conjugation side), cycle analysis of operator applications against counter updates, freshness dataflow of normalisers, last-writer dataflow of x increments, type-level lint on the complex instantiation of the plane rotation",
          "Also decided: conjugate-linearity is used on the correct side in every projection coefficient and shadow-vector product (found and repaired BiCGStab and IDR(s)), plane rotations of the GMRES family are unitary for complex scalars (found and repaired), with maxiter = k exactly k operator applications are counted, basis vectors are normalised with a fresh norm, x is x0 plus solution-space increments, the applied rotation is the unitary completion of its annihilating row."),
  'C06': ("sibling rules over the ILU constructors; CFG path rules on the level schedules",
@@ -21,7 +21,7 @@ ADD = {
  'C09': ("nowait phase analysis, path rules on the schedule constructors (final level, whole-row maximum), zero-instance resize rule with positive control",
          "Also decided: nothing written in an `omp for nowait` loop is touched before the next barrier, all levels of the schedules are turned into tasks, the level that pushes not-yet-swept neighbours is final, the ILU level is a maximum over the whole row, thread-private scratch objects (QR) are not 're-initialised' by resize(n, v), operators handed to the thread-count dependent SpGEMM switch are sorted, an owned index does not make a write to a bit-packed container (std::vector<bool>) exclusive."),
  'C10': ("scratch re-initialisation dataflow per loop iteration, null-dereference guard dataflow with sibling contradiction, exception / OpenMP region rule, shared history-freedom rules",
-         "Also decided: local C arrays are initialised before any read (also per participating thread), scratch handed whole to a callee is rebuilt in every iteration, a shared_ptr that a sibling path guards is not dereferenced unguarded (found and repaired cpr_drs), no exception can leave an OpenMP region, the cycle and the zero-coefficient primitives do not read stale memory."),
+         "Also decided: local C arrays are initialised before any read (also per participating thread), scratch handed whole to a callee is rebuilt in every iteration, a shared_ptr that a sibling path guards is not dereferenced unguarded (found and repaired cpr_drs), no exception can leave an OpenMP region, the cycle and the zero-coefficient primitives do not read stale memory, the counting and the filling pass of every two-pass CRS assembly select the same entries (truth-table comparison of the selection predicates), the skyline copy pass stores only what the profile pass sized."),
  'C11': ("polynomial normal forms of message offsets / counts, may-analysis of in-flight nonblocking buffers, exact path condition on keep_src, sentinel rule, MPI datatype size rule (constant evaluation)",
          "Also decided: MPI datatypes cover the whole value for every block / complex type, global reductions use the operator of the local accumulation, a slice is sent from / received into its own position, buffers of nonblocking operations are neither modified nor out of scope before completion (found and repaired the loop-local count buffer of PMIS), move_to_backend(keep_src) leaves the source matrices intact, a column count of 0 is not 'not given', per-row sums cover the ghost columns, the requests of start_exchange are waited for on every path of finish_exchange, converting copy constructors copy member by member."),
  'C12': ("loop-nesting rule for the factor order of mpi::product, shared nonblocking-buffer / message-extent / keep-src rules, cross-class sibling rule for the run-time MPI relaxations",
